@@ -457,7 +457,14 @@ func (ex *Explorer) Choose(n int, label string) int {
 // the scheduler for sleep sets).
 func (ex *Explorer) ChooseP(n int, label string, payload func(i int) []int) (int, []int) {
 	if ex.concrete != nil {
-		return ex.Choose(n, label), nil
+		// replay: recompute the payload of the chosen alternative (the scheduler's sleep set),
+		// otherwise the candidate lists - and with them the recorded indices - diverge from the
+		// explored path and a schedule-dependent counterexample does not reproduce
+		i := ex.Choose(n, label)
+		if i == 0 {
+			return 0, nil
+		}
+		return i, payload(i)
 	}
 	ex.Stats.Decisions++
 	name := ex.freshName("choice:" + label)
